@@ -50,5 +50,5 @@ MANIFEST_INFO = {
     "engine": "xh",
     "technique": "symbolic execution of the real Trajectory methods (CrossHair + z3): one operation from an arbitrary valid state, inductive representation invariant for the hidden RMSD-trace cache, real kernel as observer",
     "text": "All keys (ints, slices incl. negative steps, index lists, masks), operand sizes and flags within n<=3 frames are explored by the solver; field movement is compared with numpy itself and the cache invariant is inductive, so arbitrary operation sequences are covered.",
-    "note": "Coordinates are concrete, keys/sizes/flags symbolic. Trusted: CrossHair/z3, numpy as oracle, the installed _rmsd extension. Not covered: smooth(), openmm conversions, save functions (C01/C20).",
+    "note": "Coordinates are concrete, keys/sizes/flags symbolic. Trusted: CrossHair/z3, numpy as oracle, the installed _rmsd extension. Not covered: smooth(), openmm conversions, save functions (C01/C20), and the input-unchanged clause for the compiled md.rmsd / md.rmsf wrappers (Cython, cannot be rebuilt; they centre float32 inputs in place when atom_indices is None — recorded in DESIGN.md under 'Observed outside the reach').",
 }
